@@ -18,7 +18,7 @@ Theorem C16_tie :
   calls_known Dispatch.dispatch = true /\ Dispatch.unsupported = [] /\
   (* the cases of the type switch are the known ones; the two sources of messages that are not Send callers - the Exec
      callback and the signal handler - deliver through Send (their bodies are the reviewed ones) *)
-  SkelTie.dispatch_kinds_ok = true /\ SkelTie.shapes_ok_for ["exec"; "handleSignals"; "Send"; "handleCommands"] = true.
+  SkelTie.dispatch_kinds_ok = true /\ SkelTie.shapes_ok_for ["exec"; "handleSignals"; "Send"; "handleCommands"; "eventLoop:sequenceMsg"] = true.
 Proof. vm_compute. repeat split. Qed.
 Print Assumptions C16_tie.
 
